@@ -641,6 +641,8 @@ class Unit:
         self.inline = {}       # function name -> helper names to inline at their call sites (R18)
         self.inlined = {}      # helper -> where it was taken from
         self.absent = []       # listed functions that no longer exist on this tree
+        self.tainted = set()   # functions that inline a function whose contract was dropped: a failed clause there is undecided, not a violation
+        self.drop = set()      # contracted functions whose contract does not type-check on this tree: not emitted, inlined into callers
 
     def read_repo(self, rel):
         p = os.path.join(self.repo, rel)
@@ -891,6 +893,13 @@ def process_fn(unit, lines, i, arg, rel_tpl):
     if j >= len(lines):
         raise AssembleError('missing //@end for fn %s' % name)
 
+    if (newname or name) in unit.drop and not impl_hdr:
+        if len(sections) > 1 or strlit_keys is not None:
+            # the function's own proof needs hints (lemma calls, loop invariants): inlined into a caller the same facts would have to be found
+            # without them, and a failure there would say nothing about the code - stay undecided
+            raise AssembleError('fn %s: its contract does not type-check against its present signature, and its proof relies on hints, so it is not inlined' % name)
+        unit.absent.append('%s (its contract does not type-check against its present signature; inlined into its callers)' % (newname or name))
+        return j + 1
     src = unit.read_repo(rel)
     try:
         if impl_hdr:
@@ -1005,8 +1014,14 @@ def process_fn(unit, lines, i, arg, rel_tpl):
                   raise AssembleError('fn %s: //@sub anchor %r matched %d times' % (name, old, len(ms)))
               body = body[:ms[0].start()] + new + body[ms[0].end():]
               st['Rsub_declared'] = st.get('Rsub_declared', 0) + 1
-          for helper_ in sorted(unit.inline.get(newname or name, [])):
+          helpers_ = set(unit.inline.get(newname or name, []))
+          for d_ in unit.drop:
+              if d_ != (newname or name) and re.search(r'(?<![\w.:])' + re.escape(d_) + r'\s*\(', strip_comments(body)):
+                  helpers_.add(d_)
+          for helper_ in sorted(helpers_):
               body = inline_helper(unit, rel, body, helper_)
+              if helper_ in unit.drop:
+                  unit.tainted.add(newname or name)
           body = rewrite_body(body, 'total' if total else mode, st)
           # a closure's result is opaque to the verifier (no inferred ensures): a proof through one fails for no semantic reason, so a
           # body that still holds one after the declared rewrites is outside the subset (degraded mode), never a violation
@@ -1113,12 +1128,13 @@ def emit_chunk(unit, chunk, rel, src, src_off):
         unit.out.append((ln, '%s:%d' % (rel, base + k)))
 
 
-def assemble(unit_name, repo='/repo', mode='partial', outdir=None, stub=None, inline=None):
+def assemble(unit_name, repo='/repo', mode='partial', outdir=None, stub=None, inline=None, drop=None):
     outdir = outdir or os.path.join(VERIF, 'build')
     os.makedirs(outdir, exist_ok=True)
     unit = Unit(unit_name, repo, mode)
     unit.stub = set(stub or [])
     unit.inline = {k: set(v) for k, v in (inline or {}).items()}
+    unit.drop = set(drop or [])
     tpl = os.path.join(VERIF, 'specs', unit_name + '.vrs')
     header = ('#![allow(unused_imports, dead_code, unused_variables, unused_mut, unused_assignments, non_snake_case, unreachable_code, unused_parens, non_upper_case_globals)]\n'
               '#![verifier::allow(autoderive_clone_without_spec)]\n'
@@ -1144,7 +1160,7 @@ def assemble(unit_name, repo='/repo', mode='partial', outdir=None, stub=None, in
     h.update(mode.encode())
     meta = {'unit': unit_name, 'mode': mode, 'file': out_rs, 'origins': [o for _, o in unit.out],
             'functions': unit.functions, 'labels': unit.labels, 'theorems': unit.theorems,
-            'stubbed': unit.stubbed, 'skipped_total': unit.skipped, 'inlined': unit.inlined, 'absent': unit.absent, 'extraction': unit.stats, 'inputs': sorted(set(unit.inputs)), 'hash': h.hexdigest()}
+            'stubbed': unit.stubbed, 'skipped_total': unit.skipped, 'inlined': unit.inlined, 'absent': unit.absent, 'tainted': sorted(unit.tainted), 'extraction': unit.stats, 'inputs': sorted(set(unit.inputs)), 'hash': h.hexdigest()}
     with open(os.path.join(outdir, unit_name + suffix + '.map.json'), 'w') as f:
         json.dump(meta, f)
     return meta
